@@ -96,6 +96,7 @@ var propTable = map[string]propDesc{
 			"R12: every reuse path resets every field except tabled buffers, and cleans the buffers whose stale content would be read",
 			"R11: a decoded postings list's encoding tag describes the entry just decoded",
 			"R11b: the bitmap of a postings list is used only after its 1-hit tag was found zero",
+			"R12b: a lookup that is given a list or iterator to reuse hands back nil, a fresh object, a sentinel, or the caller's object after it was zeroed as a whole (a miss never looks like the previous hit)",
 			"R36: the norm word of a freq/norm record is written exactly when the encoded frequency is non-zero, and every reader (read, skip) consumes it exactly when the decoded frequency is non-zero",
 		},
 		NotDecided: []string{"lock-step of the three cursors under Next/Advance", "Count arithmetic"},
@@ -142,6 +143,7 @@ var propTable = map[string]propDesc{
 			"R35c: synonym fields stay out of the ordinary term dictionaries: an exclusion check for index.SynonymField is registered at initialisation, the list is written nowhere else, the predicate answers true as soon as one check does, and invertedIndexOpaque.process is called only where it answered false",
 			"R12: a reused SynonymsList / SynonymsIterator is fully reset (tabled buffers cleaned)",
 			"R31: the reused result slot of the synonym iterator is cleared as a whole before it is handed out",
+			"R12b: the thesaurus lookup hands back a reused synonyms list only after it was zeroed as a whole (unknown terms yield empty results)",
 		},
 		NotDecided: []string{"which (synonym, document) pairs a batch defines", "synonym id assignment and the id->term table", "ascending order of left-hand terms (vellum refuses unsorted insertion; exercised by the pinned tests)", "equality of answers after persist and re-open"},
 		Explain:    "Narrow claim: three structural necessary conditions named in the property's own anchors.",
@@ -159,7 +161,7 @@ var propTable = map[string]propDesc{
 		Explain:    "Narrow claim.",
 	},
 	"C14": {
-		Decides:    []string{"R23: wrong-dimension / missing-index queries never reach the engine; the exclusion list computed for this call is passed on the unfiltered path; only ids present in the id->doc map are emitted"},
+		Decides:    []string{"R23: wrong-dimension / missing-index queries never reach the engine; the exclusion list computed for this call is passed on the unfiltered path; only ids present in the id->doc map are emitted", "R23c: on every path on which the vector cache hands out an index, the exclusion bitmap of this call has been looked at (the exclusion list handed out with the index depends on it)"},
 		NotDecided: []string{"scores, top-k, selector choice, eligible filtering (native library)"},
 		Explain:    "Narrow claim.",
 	},
@@ -176,6 +178,8 @@ var propTable = map[string]propDesc{
 			"R21: cache entry content is independent of the per-call exclusion bitmap",
 			"R22: references are taken on every hand-out; eviction only at zero references after removal from the map; single owner of Close",
 			"R2: cache fields only under the cache mutex",
+			"R22c: what a cache function hands out of a shared entry is read after the entry was completed on that path, not before (no stale snapshot)",
+			"R23c: the exclusion list handed out with a cached index depends on this call's exclusion bitmap on every path",
 		},
 		NotDecided: []string{"timing of the monitor goroutine", "asynchronous close()", "engine-side counters"},
 	},
